@@ -183,4 +183,39 @@ theorem resolveExternal_mono {X C : Type} (im : InnerMap X C) (n : Nat) (r : Opt
         simp only [resolveExternal] at h ⊢
         exact ih _ h
 
+/-! ### The offset string -/
+
+theorem hexDigitsU32_some {ds : List Char} {n : Nat} (h : hexDigitsU32 ds = some n) :
+    n < 4294967296 ∧ ds ≠ [] := by
+  cases ds with
+  | nil => simp [hexDigitsU32] at h
+  | cons c cs =>
+    simp only [hexDigitsU32] at h
+    cases hm : List.mapM hexDigitVal (c :: cs) with
+    | none => rw [hm] at h; simp at h
+    | some vs =>
+      rw [hm] at h
+      simp only at h
+      by_cases hlt : List.foldl (fun a d => a * 16 + d) 0 vs < 4294967296
+      · rw [if_pos hlt] at h
+        cases h
+        exact ⟨hlt, by simp⟩
+      · rw [if_neg hlt] at h
+        cases h
+
+theorem fromStrRadix16U32_some {s : List Char} {n : Nat} (h : fromStrRadix16U32 s = some n) :
+    n < 4294967296 ∧ s ≠ [] := by
+  unfold fromStrRadix16U32 at h
+  split at h
+  · exact ⟨(hexDigitsU32_some h).1, by simp⟩
+  · exact hexDigitsU32_some h
+
+theorem parseModuleOffset_some {cs : List Char} {n : Nat} (h : parseModuleOffset cs = some n) :
+    n < 4294967296 ∧ ∃ rest, cs = '0' :: 'x' :: rest ∧ rest ≠ [] := by
+  unfold parseModuleOffset at h
+  split at h
+  · rename_i rest
+    exact ⟨(fromStrRadix16U32_some h).1, rest, rfl, (fromStrRadix16U32_some h).2⟩
+  · cases h
+
 end SourceApi
